@@ -294,7 +294,7 @@ def run_shard(spec, seed, tier):
     elif spec["kind"] == "fuzz":
         simple.fuzz_stage(res, "props.c16", seed, 30000)
     else:
-        hyp.search(res, st_case(), simple.make_body(mod), seed, 600 if tier == "quick" else 8000)
+        hyp.search(res, st_case(), simple.make_body(mod), seed, 2000 if tier == "quick" else 30000)
     return res
 
 
